@@ -372,6 +372,9 @@ func driverMain() int {
 		fmt.Fprintln(os.Stderr, err)
 		return 2
 	}
+	if !exhaustive {
+		fmt.Printf("not exhaustive: incomplete_scenarios=%d step_caps=%d harness_error=%v\n", len(tot.Incomplete), tot.StepCaps, harnessErr)
+	}
 	fmt.Printf("property=%s tier=%s scenarios=%d/%d executions=%d steps=%d states=%d outcomes=%d conflict-orders=%d exhaustive=%v wall=%.1fs\n",
 		id, tier, tot.ScenariosDone, tot.Scenarios, tot.Executions, tot.Steps, len(tot.States), len(tot.Outcomes), len(tot.Conf), exhaustive, time.Since(start).Seconds())
 	var ks []string
@@ -382,8 +385,8 @@ func driverMain() int {
 	for _, k := range ks {
 		parts := strings.SplitN(k, " ", 2)
 		what := parts[1]
-		if known != nil {
-			what = known.What(parts[0], parts[1])
+		if i, err := strconv.Atoi(parts[1]); err == nil && known != nil && i < len(known.Findings) {
+			what = known.Findings[i].What
 		}
 		fmt.Printf("KNOWN-FINDING: property=%s %s (%d executions)\n", parts[0], what, tot.Known[k])
 	}
